@@ -585,6 +585,21 @@ pub fn terms_oracle(c: &TermsCase) -> Verdict {
         0 => {
             // MapSet over arbitrary member terms
             let set = ElixirMapSet::from_values(terms.clone());
+            if c.opt {
+                // the same set built member by member (one more member put in and taken out again) is the same set
+                let mut built = ElixirMapSet::new();
+                for m in &terms {
+                    built.insert(m.clone());
+                }
+                let extra = OwnedTerm::atom("__verif_extra_member__");
+                if !terms.contains(&extra) {
+                    built.insert(extra.clone());
+                    built.remove(&extra);
+                }
+                if built != set || built.len() != set.len() || built.is_empty() != terms.is_empty() {
+                    vfail!("mapset-built-by-insert-differs", "{} members inserted one by one: len {} vs from_values len {}", terms.len(), built.len(), set.len());
+                }
+            }
             let t: OwnedTerm = set.clone().into();
             match ElixirMapSet::from_term(&t) {
                 Some(y) if y == set => {}
